@@ -22,6 +22,7 @@ ASSUMPTIONS = ["conditionals are one level deep and #define lines stand outside 
                "included files start with a section header and the including file continues with one",
                "known finding F13: a conditional #include/#error that follows a [ moleculetype ] in the same file "
                "is excluded by construction from 7/8 of the draws"]
+RULE += (' One tree in three ends main.top (half of those: every file) without a final line break.')
 BUDGET = {"quick": (16, 300), "thorough": (16, 6000)}
 
 TAGS = ["FLEX", "POSRES", "HEAVY"]
